@@ -307,7 +307,7 @@ fn scanner(rec: &mut Rec, ctx: &Ctx, idx: u64, rng: &mut ChaCha20Rng) {
   let t = rng.gen_range(2..=12u32);
   let ml = *pick(rng, &[8usize, 16, 24, 32, 40, 170, 400]);
   let m = rand_bytes(rng, ml);
-  let e = rand_bytes_in(rng, 0..16);
+  let e = crate::gen::epoch(rng); // 0..64 bytes, incl. 16+ (derivations that fold the epoch into fixed-size blocks)
   let al = *pick(rng, &[8usize, 16, 33, 200, 400]);
   rec.evals += 1;
   rec.case(&("scan", t, ml, al));
